@@ -223,6 +223,16 @@ def rekeyed_checks(ctx, cirq, c, qs, mode, checks, route):
     dist = aggregate([(p, r, None) for p, r, _ in br], meas2)
     ctx.count(f'rekeyed:{route}', [desc, route, entry], len([1 for v in dist.values() if v > 1e-9]) >= 2,
               sample=dict(circuit=desc, route=route, entry=entry, rekeyed=str(c2).replace('\n', ' | ')[:300]))
+    if flip is None and route in ('key_map', 'key_map_swap', 'path_prefix'):
+        # the model of the re-keyed circuit itself (theorem C02_rekey_preserves_distribution says it is the model of the original)
+        try:
+            mops2, meas_b, _ = opsem.circuit_to_mops(cirq, c2, qs)
+            if [m[1] for m in meas_b] == [m[1] for m in meas2]:
+                checks.append((f'rekeyed:{route}', f'dist_ok {TOL} (exec FOps {shape} {mops2} {gates.fvec(np.eye(dim)[0])}) {dist_literal(dist)}',
+                               f'{entry} of the circuit re-keyed by {route} differs from the reference semantics of the re-keyed circuit itself ({desc})',
+                               dict(signature=f'rekeyed-own-model:{route}:{features(cirq, c)}', route=route, entry=entry, circuit=repr(c), mode=mode)))
+        except opsem.Unsupported:
+            pass
     checks.append((f'rekeyed:{route}', f'dist_ok {TOL} {model} {dist_literal(dist)}',
                    f'{entry} of the circuit re-keyed by {route}: the recorded results (read under the new keys) do not have the distribution of the original circuit {desc} (got {sorted(dist.items())})',
                    dict(signature=f'rekeyed:{route}:{features(cirq, c)}', route=route, entry=entry, circuit=repr(c), mode=mode)))
